@@ -12,6 +12,7 @@ objects, loop records) are those it found (`exec_simple_fail_tab`).
 import ZygoVerif.Proofs.RunMain
 import ZygoVerif.Proofs.ContainFrame
 import ZygoVerif.Proofs.ContainExact
+import ZygoVerif.Proofs.C01VM
 
 namespace ZygoVerif.RunInv
 open ZygoVerif.Core ZygoVerif.VM ZygoVerif.Bal ZygoVerif.Refine ZygoVerif.Sim ZygoVerif.Contain
@@ -443,6 +444,14 @@ theorem exec_simple_fail_tab (n : Nat) (i : Instr) (s : St) (hs : simple i = tru
 
 /-! ## The fault state of a loop -/
 
+/-- the lazy arguments captured scope stacks without nil cells, and those still to be forced a
+non-empty one -/
+def LzOK (s : St) : Prop :=
+  (∀ z ∈ s.lazies, VMSafe.allSome z.stack) ∧ (∀ z ∈ s.lazies, z.value = none → z.stack ≠ [])
+
+theorem LzOK.same {s s' : St} (h : LzOK s) (e : s'.lazies = s.lazies) : LzOK s' := by
+  unfold LzOK; rw [e]; exact h
+
 /-- what the loop needs of the state a failing instruction leaves: good tables, tables only
 grown, the set-aside stacks as before, the scope stack of the base still underneath -/
 structure FaultOK (b : Base) (s₀ s₁ : St) : Prop where
@@ -450,16 +459,17 @@ structure FaultOK (b : Base) (s₀ s₁ : St) : Prop where
   ext : TExt s₀ s₁
   susp : s₁.suspended = s₀.suspended
   lin : b.linear <:+ s₁.linear
+  lz : LzOK s₁
 
 /-- (C1) a failing non-call instruction leaves such a state -/
 theorem faultOK_simple {b : Base} {s s₁ : St} {top : Act} {rest : List Act} (hw : WF s) (hr : Running b s top rest) {i : Instr}
     (hf : (fnOf s s.curfunc).code[s.pc.toNat]? = some i) (hs : simple i = true) (n : Nat) (e : Fault)
-    (h : (exec (n + 1) i).run s = (.error e, s₁)) : FaultOK b s s₁ := by
+    (h : (exec (n + 1) i).run s = (.error e, s₁)) (hlz : LzOK s) : FaultOK b s s₁ := by
   have ht := exec_simple_fail_tab n i s hs e s₁ h
   obtain ⟨l1, l2, l3, _⟩ := exec_simple_above_la hr hf hs n
   rw [h] at l1 l2 l3
   have he : TExt s s₁ := TExt.same ht.fns ht.loops
-  refine ⟨?_, he, l2, l1⟩
+  refine ⟨?_, he, l2, l1, hlz.same ht.lazies⟩
   have he' : TExt s { s₁ with data := [] } := TExt.same ht.fns ht.loops
   refine hw.mk' he' (fun id h1 h2 => ?_) (l3.trans hw.loopstack) ?_ ?_ ?_ (fun c hc => by cases hc)
   · have : ({ s₁ with data := [] } : St).fns.length = s.fns.length := by show s₁.fns.length = _; rw [ht.fns]
